@@ -66,7 +66,8 @@ def default_scripts(rng, antiparallel=False):
     scripts = [
         {"choice": {"kind": "first"}, "sample": {"kind": "first"}, "axis": {"kind": "mt"}, "seed": s},
         {"choice": {"kind": "last"}, "sample": {"kind": "last"}, "axis": {"kind": "mt"}, "seed": s + 1},
-        {"choice": {"kind": "alternate"}, "sample": {"kind": "alternate"}, "axis": {"kind": "mt"}, "seed": s + 2},
+        # (a selection that is neither ascending nor a prefix, reaching past index 8 when there are that many matches)
+        {"choice": {"kind": "alternate"}, "sample": {"kind": "explicit", "list": [8, 3, 9, 1, 10, 0, 11, 2]}, "axis": {"kind": "mt"}, "seed": s + 2},
         {"choice": {"kind": "mt"}, "sample": {"kind": "mt"}, "axis": {"kind": "mt"}, "seed": s + 3},
     ]
     if antiparallel:
@@ -141,8 +142,17 @@ def gen_find_world(rng, max_atoms=48, max_copies=6, families=None, cell_families
     K = geom.amplification_K(P, hints)
     eps_max = atol / (2.0 * K)
     min_width = max(D + 2 * atol, 2.2) * width_mult
+    sparse = round_cell is None and rng.random() < 0.07
+    if sparse:
+        # a large, sparsely filled cell: coordinates of tens of length units (anything RELATIVE to a coordinate is then large)
+        min_width *= rng.uniform(4.0, 9.0)
+    crowd = not sparse and n <= 3 and max_copies >= 4 and rng.random() < 0.1
+    if crowd:
+        # many occurrences of a small pattern (two-digit match counts)
+        max_copies, max_atoms, min_copies = 14, max(max_atoms, 60), max(min_copies, 9)
+        min_width *= 1.6
     cfam = rng.choice(cell_families or geom.CELL_FAMILIES)
-    ntight = 0 if no_tight else rng.choice([0, 0, 1, 1, 2, 3])
+    ntight = 0 if (no_tight or sparse) else rng.choice([0, 0, 1, 1, 2, 3])
     tight_axes = rng.sample(range(3), ntight)
     cell = geom.make_cell(rng, cfam, min_width, tight_axes, allow_rotated=allow_rotated)
     if round_cell is not None:
